@@ -602,7 +602,7 @@ func sortItemComplete(v ssa.Value) bool {
 
 // ruleMarkerArms: C11.rowdelete (fill list part)
 func ruleMarkerArms(r *Report) {
-	h := r.Rule("C11.markers", "A", "commitMarkers: an Insert marker sets the row's bit in the collection's fill list, a Delete marker clears it, nothing else changes the fill list there; the counter is recomputed from the fill list afterwards", 4)
+	h := r.Rule("C11.markers", "A", "commitMarkers: an Insert marker sets the row's bit in the collection's fill list, a Delete marker clears it, nothing else changes the fill list there; the counter is recomputed from the fill list afterwards", 6)
 	fn := r.Anchor("(*column.Txn).commitMarkers")
 	if fn == nil {
 		return
@@ -611,19 +611,42 @@ func ruleMarkerArms(r *Report) {
 	var lf *ssa.Function
 	withClosures(fn, func(f *ssa.Function) {
 		for _, l := range FindArmLoops(r.P, f) {
-			// the loop that touches Collection.fill
-			for _, es := range l.Effects {
-				for _, e := range es {
-					if fr, ok := fieldOf(e.Target); ok && fr.Struct == "column.Collection" && fr.Field == "fill" {
-						loop, lf = l, f
+			// the loop that sets/clears bits of a bitmap under Insert/Delete markers
+			if len(l.May(opInsert, "presence-set")) > 0 || len(l.May(opDelete, "presence-clear")) > 0 || loop == nil {
+				for _, es := range l.Effects {
+					for _, e := range es {
+						if e.Kind == "presence-set" || e.Kind == "presence-clear" {
+							loop, lf = l, f
+						}
 					}
 				}
 			}
 		}
 	})
 	if loop == nil {
-		h.Unknown("loop", r.P.Pos(fn.Pos()), "no marker loop writing Collection.fill recognised in commitMarkers")
+		h.Bad("commitMarkers/loop", r.P.Pos(fn.Pos()), "commitMarkers has no loop that sets the fill bit for Insert markers and clears it for Delete markers")
 		return
+	}
+	// the bits are written in the collection's fill list itself, addressed through the field under
+	// the mutex — not through a slice of it obtained earlier (the list is re-allocated when a
+	// concurrent insert grows it, and the slice then points into the abandoned array)
+	direct := true
+	var viaSlice ssa.Instruction
+	for _, es := range loop.Effects {
+		for _, e := range es {
+			if e.Kind != "presence-set" && e.Kind != "presence-clear" {
+				continue
+			}
+			if fr, ok := fieldOf(e.Target); !ok || fr.Struct != "column.Collection" || fr.Field != "fill" {
+				direct, viaSlice = false, e.Ins
+			}
+		}
+	}
+	h.Check(direct, "commitMarkers/target", r.P.InstrPos(viaSlice), "markers write Collection.fill itself", "the markers are applied to a bitmap value other than the collection's fill-list field (a slice taken before the mutex was re-acquired): when a concurrent insert grows the fill list the slice points into the abandoned array and the committed insert/delete is lost")
+	for _, par := range fn.Params {
+		if isBitmap(par.Type()) {
+			h.Check(len(*par.Referrers()) == 0, "commitMarkers/param-"+par.Name(), r.P.Pos(fn.Pos()), "fill slice handed in by rangeWrite is not used", "commitMarkers uses the fill slice that rangeWrite computed before releasing the collection mutex")
+		}
 	}
 	b := &applyBody{Kind: "markers", Name: "commitMarkers", Fn: lf, Loop: loop}
 	ar := armRule{h, b, r.P}
